@@ -260,6 +260,17 @@ def disposition(ctx):
         # after the node left the tree
         mp = must_pass(u, lambda x: is_call(x, 'iv_avl_tree_delete'))
         okh = okh and bool(mp.get((e['_b'], e['_i'])))
+    dels = [e for e in u.events() if is_call(e, 'iv_avl_tree_delete')]
+    ins = [e for e in r.events() if is_call(e, 'iv_avl_tree_insert')]
+    trees = {canon(e['args'][0]) for e in dels} | {canon(e['args'][0]) for e in ins}
+    same = bool(dels) and bool(ins) and len(trees) == 1
+    ctx.ob('R-C10d', 'register/unregister:same-tree', same, loc=dels[0]['loc'] if dels else u.loc,
+           detail='the interest is inserted into and deleted from the same tree expression: %s' % sorted(trees), fn=u.q)
+    ht = {canon(e['args'][0]) for e in ho}
+    ctx.ob('R-C10d', 'unregister:hand-off-walks-own-tree', bool(ho) and ht == {canon(e['args'][0]) for e in dels}, loc=ho[0]['loc'] if ho else u.loc,
+           detail='the pending delivery is re-dispatched in the tree the interest was deleted from (%s), with the same signal number' % sorted(ht), fn=u.q)
+    ctx.ob('R-C10d', 'unregister:hand-off-same-signal', bool(ho) and all(last_member(e['args'][1]) == ('iv_signal', 'signum') for e in ho), loc=ho[0]['loc'] if ho else u.loc,
+           detail='... for this interest\'s own signal number', fn=u.q)
     ctx.ob('R-C10d', 'unregister:exclusive-hand-off', okh, loc=ho[0]['loc'] if ho else u.loc,
            detail='a delivery noted for an exclusive interest that is being unregistered is handed to the next interest: re-wake on '
                   '(exclusive && active), after the tree delete, inside the lock region', fn=u.q)
